@@ -1222,6 +1222,30 @@ func (g *plGen) enumGrowthScene() {
 		}
 		dumps()
 	}
+	// one referencing signal moves to another enum while the other keeps this one; then calls the
+	// enum must REFUSE (used name / used index / unknown value / rename to a used name): the cause
+	// must be the documented one, whatever earlier accepted size changes left behind
+	if len(ms) > 1 && r.Intn(2) == 0 {
+		e2 := g.fresh()
+		g.emit(sprintf("pl enum.new %d", e2))
+		g.enums = append(g.enums, e2)
+		for _, sID := range g.sigs {
+			if es, ok := g.ex.sigs[sID].(*acmelib.EnumSignal); ok && es.Enum() == g.ex.enums[e] && es.ParentMessage() != nil {
+				g.emit(sprintf("pl sig.setenum %d %d", sID, e2))
+				break
+			}
+		}
+		v4, v5 := g.fresh(), g.fresh()
+		g.emit(sprintf("pl val.new %d ga %d", v4, 60)) // the name of v1
+		g.emit(sprintf("pl enum.add %d %d", e, v4))
+		g.emit(sprintf("pl val.new %d gz %d", v5, pick(r, 0, 1, 3))) // (often) the index of v1
+		g.emit(sprintf("pl enum.add %d %d", e, v5))
+		g.vals = append(g.vals, v4, v5)
+		g.emit(sprintf("pl enum.rm %d %d", e, g.fresh()))
+		g.emit(sprintf("pl val.name %d gc", v1))
+		g.emit(sprintf("pl val.name %d ga", v2))
+		dumps()
+	}
 }
 
 func (payloadStream) Gen(r *rand.Rand, tier string, idx int) []string {
